@@ -5,6 +5,37 @@ from .. import mito
 from ..core import Prop, Violation, import_repo, REPO
 from ..extract import e1
 
+# "Python raises" and other boundary expressions (hand-checked to be cheap): float overflow, huge ints mixed with
+# floats, zero division of every flavour, complex results, conversions that do not fit, non-finite values, repeated
+# keywords (refused by the compiler)
+BOUNDARY = [
+    "2.0 ** 5000", "9.5 ** 999", "10 ** 400 / 3", "10 ** 400 * 1.5", "10 ** 400 + 0.5", "1.5 * 10 ** 400",
+    "10 ** 400 - 0.5", "10 ** 400 // 1.5", "10 ** 400 % 1.5", "0.5 ** -5000", "2 ** -5000", "2.0 ** -5000",
+    "1e308 * 10", "1e308 + 1e308", "-1e308 * 10", "1e308 ** 2", "1e200 ** 2", "1e-320 / 1e10", "5e-324 / 2",
+    "0.0 ** -1", "0 ** -1", "0.0 ** 0", "0 ** 0", "(-8) ** (1/3)", "(-1) ** 0.5", "(-8.0) ** 0.5", "-8 ** 0.5",
+    "float(10 ** 400)", "float(10 ** 308)", "int(inf)", "int(-inf)", "int(inf - inf)", "float('1e999')",
+    "round(inf)", "round(inf - inf)", "round(1e308, -308)", "round(1e308, 400)", "round(10 ** 400, -399)",
+    "factorial(2.5)", "factorial(-1)", "factorial(3.0)", "factorial(171) * 1.0", "gcd(1.5, 2)", "gcd(2.0, 4)",
+    "gcd(10 ** 400, 10 ** 399)", "sqrt(-1)", "sqrt(10 ** 400)", "sqrt(10 ** 700)", "log(0)", "log(-1)", "log(10 ** 400)",
+    "log2(10 ** 5000)", "log10(0.0)", "exp(1000)", "exp(-1000)", "exp(709.78)", "exp(709.79)", "cosh(1000)", "sinh(-1000)",
+    "tanh(1000)", "pow(2.0, 5000)", "pow(10, 400)", "pow(-8, 1/3)", "pow(0, -1)", "asin(2)", "acos(-1.0000001)",
+    "atan2(0.0, -0.0)", "atan2(-0.0, -0.0)", "degrees(1e308)", "radians(1e308)", "ceil(inf)", "floor(inf - inf)",
+    "trunc(1e308)", "ceil(1e308)", "sin(inf)", "cos(1e308)", "tan(inf - inf)",
+    "1 / 0", "1.0 / 0", "1 // 0", "1.0 // 0.0", "1 % 0", "1.0 % 0", "inf % 2", "2 % inf", "-2 % inf", "inf // 1", "inf / inf",
+    "inf - inf == inf - inf", "(inf - inf) < 1", "(inf - inf) != (inf - inf)", "1 < (inf - inf) < 3", "inf == inf",
+    "max(inf - inf, 1)", "max(1, inf - inf)", "min([inf - inf, 0.0, -0.0])", "sum([1e308, 1e308])", "sum([0.1] * 10)",
+    "abs(-0.0)", "abs(-(10 ** 400))", "-(-(10 ** 400))", "10 ** 400 == 1e400", "10 ** 400 < inf", "10 ** 400 > 1e308",
+    "10 ** 400 == 10.0 ** 400", "2 ** 53 + 1 == 2.0 ** 53 + 1", "2 ** 53 + 1.0", "float(2 ** 53 + 1)", "0.1 + 0.2 == 0.3",
+    "1e16 + 1 - 1e16", "int('9' * 400) + 0.5", "int(1e308) * 10.0", "int(1e22)", "bool(inf - inf)", "bool(-0.0)",
+    "not (inf - inf)", "len([1] * 5000)", "'ab' * -1", "[1] * (10 ** 400)", "'a' * 10 ** 400", "10 ** 400 * 'a'",
+    "5000 * [0] == [0] * 5000", "(1, 2) * 2.0", "'a' + 1", "[1] + (2,)", "'a' < 1", "[1] < [1.0, 0]", "(1,) == [1]",
+    "round(1.234, ndigits=1, ndigits=2)", "int('11', base=2, base=10)", "max(1, 2, key=abs, key=abs)",
+    "round(2.5)", "round(3.5)", "round(-0.5)", "round(2.675, 2)", "round(1e308, ndigits=None)", "round(5, ndigits=-1)",
+    "int('0x1f', base=16)", "int('1_000')", "int(' 12 ')", "int('١٢')", "float('  1e3\n')", "float('nan') == float('nan')",
+    "int(2.5e-324)", "7 // -2", "-7 // 2", "7 % -2", "-7 % 2", "7.5 // -2", "-7.5 % 2", "2 ** 0.5 ** 2", "-2 ** 2", "(-2) ** 2",
+    "2 ** -1", "(-2) ** -1", "0.1 * 3", "1e308 * 10 * 0", "1 if (inf - inf) else 2", "(inf - inf) or 5", "(inf - inf) and 5",
+]
+
 CONCRETE_ARGS = ["2", "-7", "2.5", "0", "'11'", "[3, 1, 2]", "(1.5, 2)", "True", "-0.0", "1e308", "10", "0.5"]
 OPERANDS = ["7", "2", "-7", "0", "2.5", "-0.5", "'ab'", "3", "[1]", "True", "1e308", "10"]
 
@@ -124,7 +155,9 @@ class C02(Prop):
         srcs += ["t0 and t1", "t0 or t1", "t0 and t1 and t2", "t0 or t1 or t2", "t0 and t1 or t2", "t0 or t1 and t2",
                  "t0 if t1 else t2", "f0()", "f0(t0)", "f0(t0, t1)", "f0(k=t0)", "f0(t0, k=t1, base=t2)", "[t0, t1]",
                  "(t0, t1)", "[]", "()", "f0(f1(t0), [t1])", "not (t0 < t1)", "-t0 ** t1", "(t0 < t1) + t2",
-                 "t0 < t1 < t2 < t3", "(t0 or t1)(t2)", "f0(t0)(t1)"]
+                 "t0 < t1 < t2 < t3", "(t0 or t1)(t2)", "f0(t0)(t1)", "f0(t0, k=t1, k=t2)", "f0(k=t0, base=t1, k=t2)",
+                 "f0(t0, k=f1(t1), k=f1(t2))", "t0 if t1 else f0(k=t2, k=t3)", "t0 or f0(k=t1, k=t2)",
+                 "f0(f1(k=t0, k=t1))", "[t0, f0(base=t1, base=t2)]", "t0 < t1 < f0(k=t2, k=t3)"]
         for i, src in enumerate(srcs):
             if i % 12 == 0:
                 lines = H()
@@ -172,6 +205,7 @@ class C02(Prop):
         srcs = [s for s in srcs if mito.cheap(s)]
         if tier == "quick":
             srcs = srcs[::3] + srcs[1::7]
+        srcs = BOUNDARY + srcs
         for i, src in enumerate(srcs):
             if i % 40 == 0:
                 lines = H()
